@@ -94,6 +94,29 @@ func goEnv() []string {
 	return env
 }
 
+// modfileArgs: VERIF_REPO=<dir> builds the harness against another copy of the library (used for
+// background runs on a snapshot and by the seeded-defect tooling); the registered MANIFEST commands
+// never set it and therefore always build from /repo's current working tree.
+func modfileArgs() []string {
+	alt := os.Getenv("VERIF_REPO")
+	if alt == "" {
+		return nil
+	}
+	b, err := os.ReadFile(filepath.Join(harness, "go.mod"))
+	if err != nil {
+		fail2("reading go.mod: %v", err)
+	}
+	mod := strings.Replace(string(b), "=> /repo", "=> "+alt, 1)
+	dst := filepath.Join(build, fmt.Sprintf("alt.%d.mod", os.Getpid()))
+	if err := os.WriteFile(dst, []byte(mod), 0o644); err != nil {
+		fail2("writing %s: %v", dst, err)
+	}
+	if sum, err := os.ReadFile(filepath.Join(harness, "go.sum")); err == nil {
+		os.WriteFile(strings.TrimSuffix(dst, ".mod")+".sum", sum, 0o644)
+	}
+	return []string{"-modfile=" + dst}
+}
+
 func fail2(format string, a ...any) {
 	fmt.Fprintf(os.Stderr, "vcheck: INCONCLUSIVE: "+format+"\n", a...)
 	os.Exit(2)
@@ -125,7 +148,7 @@ func buildBinary(race bool) string {
 	buildMu.Lock()
 	defer buildMu.Unlock()
 	name := "checks.test"
-	args := []string{"test", "-c", "-vet=off"}
+	args := append([]string{"test", "-c", "-vet=off"}, modfileArgs()...)
 	if race {
 		name = "checks.race.test"
 		args = append(args, "-race")
@@ -313,6 +336,7 @@ func main() {
 		}
 	}
 
+	cleanStale()
 	start := time.Now()
 	bin := buildBinary(false)
 	defer os.Remove(bin)
@@ -643,6 +667,34 @@ func main() {
 		fail2("shard %d exceeded its time budget of %s; the cases completed so far held", timedOut.idx, timeout)
 	}
 	os.Exit(0)
+}
+
+// cleanStale removes private binaries / mod files left behind by vcheck processes that were killed.
+func cleanStale() {
+	entries, err := os.ReadDir(build)
+	if err != nil {
+		return
+	}
+	for _, e := range entries {
+		name := e.Name()
+		var pidStr string
+		switch {
+		case strings.HasPrefix(name, "checks.test.") || strings.HasPrefix(name, "checks.race.test."):
+			pidStr = name[strings.LastIndex(name, ".")+1:]
+		case strings.HasPrefix(name, "alt."):
+			parts := strings.Split(name, ".")
+			if len(parts) == 3 {
+				pidStr = parts[1]
+			}
+		}
+		pid, err := strconv.Atoi(pidStr)
+		if err != nil || pid <= 0 {
+			continue
+		}
+		if syscall.Kill(pid, 0) != nil {
+			os.Remove(filepath.Join(build, name))
+		}
+	}
 }
 
 func tail(s string, n int) string {
